@@ -20,6 +20,11 @@ CLAIMED = {
    text='Exhaustive static check of the validator: all expectation blocks reachable from each class\'s verify() (1275 block instances, helper parameters bound to call-site literals, virtual calls resolved per dynamic class) are read from the clang AST; V1 checks their iterator typestate (validate / ++iter alternation, own iterators, validate_no_more terminator); V2 requires the literal expectations to equal, entry by entry and in std::set order, what a catalog model of SQLite derives from the same class\'s DDL, and every table / index / index column to be covered by a block; V3 requires the same against each of the 57 reference dumps; V4 checks by dataflow that each validate helper compares every listed attribute with the entry member of the same meaning and throws database_inconsistency. Together these imply the reject side for every single structural deviation the property lists, which no existing test exercises.',
    note='Trusted: clang AST; the catalog model of PRAGMA table_info/index_list/index_info/sqlite_master (cross-validated: it reproduces all hand-written expectation blocks, which pass on real SQLite in the pinned suite). Views\' columns are only checked where the validator has a block (2.x validators have none; outside the property\'s list). Trigger and view bodies are outside the property.',
    ref='DESIGN.md 4 C17'),
+ 'C05': dict(
+   technique='abstract interpretation over the clang AST (cursor / interval domain with linear lower bounds, inferred loop invariants, helpers inlined) + finite evaluation of the inflate status handling',
+   text='Sound-by-construction memory-safety argument for the 11 decoders and the decompressor without running them: a path-enumerating abstract interpreter tracks, for every pointer into a byte buffer, linear lower bounds of the bytes remaining; every dereference, ptr[i], memcpy/assign source and pointer advance is an obligation proved from dominating guards and inferred loop invariants (counted-loop relational invariants and descending fix-points), wire-derived signed arithmetic is checked against its type range, container indexing and the end pointer against the buffer, loops for progress, the inflate loop for termination over every status code with the input exhausted, and thrown types for derivation from std::exception. An unproved obligation with a fully modelled path is a violation naming the call chain; unmodelled constructs are exit 2.',
+   note='Trusted: clang AST, sa/absint.py + sa/lin.py, zlib\'s inflate contract, buffers < 2^31 bytes, allocation failure surfacing as an exception. Not decided: wall-clock promptness beyond loop progress. Five genuine defects found by this check were repaired (known_findings.json, fixed entries).',
+   ref='DESIGN.md 4 C05'),
 }
 
 NOT_APPLICABLE = {
